@@ -18,7 +18,9 @@ ID = "C10"
 RULE = ("Hypothesis-generated histories: a pool of 1-3 small configurations (same and different crops / soils / strategies, most built "
         "with default optional arguments so that default-argument lists and the crop-parameter dictionary are shared) is "
         "instantiated 2-4 times in ONE process (in half of the histories instances of the same configuration are built from one "
-        "shared set of input objects) and the instances are created, stepped (run_model(num_steps=k)) and finished in a "
+        "shared set of input objects, objects with equal settings -- incl. one default CO2() -- being ONE object for the whole pool; "
+        "near twins of the first configuration differ in one or two parameters, in a window shifted by whole years or in a window "
+        "CONTAINING the first one) and the instances are created, stepped (run_model(num_steps=k)) and finished in a "
         "generated interleaving. Oracle: every instance's output digest (sha256 over the float64 bytes of the three daily tables + "
         "the rendered summary) must equal the digest of the same configuration run alone in a FRESH interpreter with a generated "
         "PYTHONHASHSEED; the first configuration of every history is additionally run in a second fresh interpreter with another "
